@@ -242,6 +242,21 @@ impl Monitor for C11 {
         let mut r = Rng::derive(self.seed, 0x1101, k, 0);
         let max_plain = self.tier.pick(20_000, 200_000);
         let g = match k % 10 {
+            7 if k % 4000 == 7 => {
+                // scale: an incompressible file of several MiB up to tens of MiB (zstd's worst-case expansion,
+                // buffer bounds that only large inputs reach); thresholds are probed at a handful of sizes
+                let mib = [13usize, 6, 40, 3, 11, 17, 24][((k / 4000) % 7) as usize];
+                let n = (mib << 20) + r.usize_below(70000);
+                let mut bytes = r.bytes(n);
+                let g2 = wrap::assemble(&mut r, 20_000, 2);
+                bytes.extend(g2.bytes);
+                ctx.count("large_incompressible_files");
+                wrap::GenFile {
+                    bytes,
+                    recipe: format!("{} bytes of noise + {}", n, g2.recipe),
+                    embedded: vec![],
+                }
+            }
             0 => wrap::edge_case(k / 10, &mut r),
             1 => wrap::GenFile {
                 bytes: {
